@@ -183,11 +183,14 @@ def run(ck):
                 pdv, okd = repr(e), False
             if not okd:
                 ck.fail_case({"accessor": "PointIsotherm.pressure_at", "clause": "desorption branch interpolation"}, {"query": dql, "got": str(pdv)})
-            pmid = float(iso.pressure_at((ls[1] + ls[2]) / 2))
-            if not close(pmid, (up[1] + up[2]) / 2, rel=1e-12):
+            try:
+                pmid = float(iso.pressure_at((ls[1] + ls[2]) / 2))
+                pk = float(iso.pressure_at(ls[2]))
+            except Exception as e:  # noqa
+                pmid = pk = repr(e)[:200]
+            if isinstance(pmid, str) or not close(pmid, (up[1] + up[2]) / 2, rel=1e-12):
                 ck.fail_case({"accessor": "PointIsotherm.pressure_at", "clause": "adsorption branch after a desorption query"}, {"loading": (ls[1] + ls[2]) / 2, "got": pmid, "expected": (up[1] + up[2]) / 2})
-            pk = float(iso.pressure_at(ls[2]))
-            if not close(pk, up[2], rel=1e-12):
+            if not isinstance(pk, str) and not close(pk, up[2], rel=1e-12):
                 ck.fail_case({"accessor": "PointIsotherm.pressure_at", "clause": "coincides at knots"}, {"loading": ls[2], "got": pk, "expected": up[2]})
         # foreign-unit query: pressure given in rq_p, loading returned in (rq_l | rq_m)
         qf = float(expected_pressure(P, lab, rq_p, q_in))
